@@ -181,6 +181,18 @@ func main() {
 		runC06(w, *seed, *maxLen, *n)
 		return
 	}
+	if *mode == "c05" {
+		runC05(w, *seed, *n, *depth)
+		return
+	}
+	if *mode == "c10" {
+		runC10(w, *seed, *n, repeat)
+		return
+	}
+	if *mode == "c11" {
+		runC11(w, *seed, *n, *depth)
+		return
+	}
 	if *mode == "c07" {
 		runC07(w, *seed, *n, *stride)
 		return
